@@ -929,7 +929,9 @@ func explore(t *testing.T, job *simh.Job, out *simh.Out) {
 			out.Line(map[string]interface{}{"t": "digest", "seed": seed, "digest": strconv.FormatUint(rr.sim.Digest, 16),
 				"steps": rr.sim.Steps, "trace_hash": strconv.FormatUint(simrt.HashString(strings.Join(rr.sim.Trace, "\n")), 16)})
 		}
-		if rr.violation != nil {
+		if rr.violation != nil && job.IsKnown(rr.violation.Class) {
+			sum.Oracles.Inc("known:" + rr.violation.Class)
+		} else if rr.violation != nil {
 			if !rrHasTrace(rr) {
 				// re-run with the recorded tape to obtain the trace (also a first replay check)
 				rr2 := runSim(t, &w, fp, mp, mapSeed, seed, rr.sim.Tape, true, true)
